@@ -359,3 +359,29 @@ def main(ctx):
         "counted: accepted strings per decoded (r,s). Non-trivial = pairs "
         "round-tripped / inputs accepted." % (top, maxlen - 1))
     return rep
+
+
+def mixed_cases(ctx):
+    from ecdsa import curves as cv
+    groups = []
+    for names in catalog.same_length_groups():
+        items = []
+        for nm in names:
+            n = int(getattr(cv, nm).order)
+            l = olen(n)
+            for (r, s) in ((1, n - 1), (n - 1, 1), (n // 2, n // 3)):
+                items.append(("roundtrip", dict(n=n, r=r, s=s)))
+            items.append(("helper", dict(n=n, v=n - 1)))
+            items.append(("rawdec", dict(n=n, data=b"\x01" * (2 * l))))
+            items.append(("rawdec", dict(n=n, data=b"\x01" * (2 * l + 1))))
+            items.append(("derdec", dict(n=n, data=rd.sig_value(n - 1, 5))))
+        groups.append(items)
+    toy = []
+    for n in (255, 256, 257, 65535, 65536, 65537, 5, 300):
+        l = olen(n)
+        toy.append(("roundtrip", dict(n=n, r=1, s=n - 1)))
+        toy.append(("helper", dict(n=n, v=n - 1)))
+        toy.append(("rawdec", dict(n=n, data=b"\x00" * (2 * l))))
+        toy.append(("rawdec", dict(n=n, data=b"\x00" * (2 * l - 1))))
+    groups.append(toy)
+    return groups
